@@ -253,8 +253,14 @@ def run(ctx, ck) -> None:
             ok = t is not None and t[0] == 'call' and t[1] == ('var', 'sum') and t[2] and t[2][0][0] == 'comp' and t[2][0][2][0][1] == leaves and t[2][0][1] == ('attr', t[2][0][2][0][0], 'size')
         else:
             ok = t == ('call', ('attr', ('var', 'jnp'), 'result_type'), (('star', leaves),), ())
+        # the right form on the structure of the other side is wrong whatever the way it is written
+        other_side = repr(t).replace("'IN'", "'\x00'").replace("'OUT'", "'IN'").replace("'\x00'", "'OUT'") if t is not None else ''
+        if kind == 'size':
+            swapped = False
+        else:
+            swapped = not ok and other_side == repr(('call', ('attr', ('var', 'jnp'), 'result_type'), (('star', leaves),), ()))
         ck.expect('O5', ok, r.node, f'{name} is computed from the leaves of {"in" if acc == "IN" else "out"}_structure()',
-                  f'{name} is {show(t)}: not computed from the leaves of {"in" if acc == "IN" else "out"}_structure()', instance=name)
+                  f'{name} is {show(t)}: not computed from the leaves of {"in" if acc == "IN" else "out"}_structure()' + (' but from those of the other side' if swapped else ''), instance=name, semantic=swapped)
 
 
 def _apply_schema(ck, cls, fn, schema) -> None:
